@@ -94,6 +94,25 @@ CLAIMED['C08'] = (
     'Option parsing (ast_from_string) not covered.',
     'contract-based deductive verification (AST->VC generator, z3 + cvc5), native replay of counter-models')
 
+CLAIMED['C09'] = (
+    'DESIGN.md 4 C09',
+    'Manifest half only. Two-state lemmas over the proved contracts: a start time determines the canonical segment and its '
+    'duration (two manifests agree on every segment they both list); get_segment_index and timedelta_to_timecode are monotone '
+    '(the listed window only moves forward); availabilityStartTime and publishTime never move backward; together with the '
+    'live timeline and calculate_live_params contracts these are re-discharged from the current source on every run.',
+    'Trusted: as C02/C08. The MPD-patch half (PatchLocation, ServePatch.get, XML replace operations) is template/handler '
+    'level and not covered.',
+    'contract-based deductive verification: lemmas over function contracts (z3 + cvc5)')
+CLAIMED['C16'] = (
+    'DESIGN.md 4 C16',
+    'Reduced scope: for every function under contract (event boxes, buffered reader, byte ranges, live/vod segment index, '
+    'timeline, live timing) the exception-freedom obligations (no exception other than the declared ValueError that handlers '
+    'map to 4xx: division, index, None, assert, unpack, key errors) and the termination obligations (loop variants) are '
+    'discharged for all inputs satisfying the stated preconditions; preconditions no caller establishes are known findings.',
+    'Trusted: pyvc encoding. Router, uploads, corrupt MP4 input, error injection counters and all Flask handlers are not covered; '
+    'preconditions such as event interval >= 1 are not established by option parsing (known findings).',
+    'contract-based deductive verification: safety and termination obligations of the functions under contract')
+
 NOT_APPLICABLE = {
     'C05': 'XML documents come out of Jinja templates rendered by an external engine; no function contract reaches them and the app cannot be instantiated offline (flask_login missing).',
     'C07': 'Identity of string transducers (quote_plus, regex date parsing, split) over a registry built with getattr; SMT string solvers leave these undecided; a proof over only int/bool options would not decide the property.',
